@@ -11,6 +11,7 @@ job = {H, W, conn, raw (H x W integer codes), vscale (value = code / vscale), dt
 Python only runs the code and encodes; every clause is decided by TLC.
 """
 import json
+import os
 import sys
 import warnings
 
@@ -71,7 +72,7 @@ def run_job(j):
             "tr": tr if tr is not None else [1, 0, 0, 0, 1, 0],
             "idx": j.get("idx", -1), "base": j.get("base", []), "maskenum": j.get("maskenum", 0),
             "steps": int(j.get("steps", 1)), "tag": j.get("tag", ""), "dtype": dtype,
-            "hasmask": 0 if m is None else 1, "hastr": 0 if tr is None else 1, "tden": tden}
+            "hasmask": 0 if m is None else 1, "hastr": 0 if tr is None else 1, "tden": tden, "job": j}
     try:
         col, polys = PZ.polygonize(raster, mask=mask_da, connectivity=conn, transform=tr_arr)
         out = []
@@ -106,11 +107,98 @@ def run_job(j):
     return case
 
 
+def signature(j):
+    if "merge_seq" in j:
+        return ("merge",)
+    return (j.get("dtype", "int64"), j.get("mdtype", "bool") if j.get("mask") is not None else None,
+            j.get("tr") is not None, bool(j.get("regs")))
+
+
+def _child(jobs, start, conn):
+    # compile every specialisation the remaining jobs need before the first result is due, so that
+    # afterwards a job that takes long is a job that hangs (not a JIT compilation)
+    seen = set()
+    for k in range(start, len(jobs)):
+        sg = signature(jobs[k])
+        if sg in seen:
+            continue
+        seen.add(sg)
+        j = jobs[k]
+        if "merge_seq" in j:
+            run_job({"merge_seq": [[1, 2]], "m": 2, "size0": 64})
+        else:
+            w = dict(j, H=2, W=2, raw=[[0, 1], [1, 1]], idx=-1)
+            if j.get("mask") is not None:
+                w["mask"] = [[1, 1], [0, 1]]
+            run_job(w)
+    conn.send((-1, len(seen)))
+    for k in range(start, len(jobs)):
+        conn.send((k, run_job(jobs[k])))
+    conn.close()
+
+
+def timeout_case(j, secs):
+    if "merge_seq" in j:
+        return {"m": j["m"], "seq": j["merge_seq"], "tag": j.get("tag", ""),
+                "error": "Timeout: _merge_regions did not return within %ds" % secs}
+    H, W = j["H"], j["W"]
+    return {"H": H, "W": W, "conn": j["conn"], "raw": j["raw"], "mask": j.get("mask"), "tr": j.get("tr"),
+            "dtype": j.get("dtype", "int64"), "tag": j.get("tag", ""), "timeout": 1, "job": j,
+            "error": "Timeout: polygonize did not return within %ds (boundary following does not terminate?)" % secs}
+
+
 def main():
+    """The jobs run in a forked child; the parent watches for progress so that a call that never returns
+    (a boundary that is never closed) becomes an observation instead of hanging the check."""
+    import multiprocessing as mp
     jobs = json.load(sys.stdin)["jobs"]
     out = sys.stdout
-    for j in jobs:
-        out.write(json.dumps(run_job(j), separators=(",", ":")) + "\n")
+    ctx = mp.get_context("fork")
+    nsig = len(set(signature(j) for j in jobs))
+    first_wait = float(os.environ.get("VERIF_PZ_FIRST_WAIT", str(300 + 100 * nsig)))   # import + JIT compilation
+    next_wait = float(os.environ.get("VERIF_PZ_NEXT_WAIT", "300"))
+    k = 0
+    timeouts = 0
+    while k < len(jobs):
+        if timeouts >= 4:
+            # give up on the rest: they are reported as not run (the driver ignores them)
+            for j in jobs[k:]:
+                out.write(json.dumps({"skipped": 1, "tag": j.get("tag", "")}) + "\n")
+            break
+        pc, cc = ctx.Pipe(duplex=False)
+        proc = ctx.Process(target=_child, args=(jobs, k, cc))
+        proc.start()
+        cc.close()
+        wait = first_wait
+        while k < len(jobs):
+            try:
+                ready = pc.poll(wait)
+            except Exception:
+                ready = False
+            if not ready:
+                proc.kill()
+                proc.join()
+                out.write(json.dumps(timeout_case(jobs[k], int(wait)), separators=(",", ":")) + "\n")
+                k += 1
+                timeouts += 1
+                break
+            try:
+                kk, case = pc.recv()
+            except EOFError:
+                proc.join()
+                if k < len(jobs):
+                    out.write(json.dumps(dict(timeout_case(jobs[k], 0), error="worker child died (exit %s)"
+                                              % proc.exitcode), separators=(",", ":")) + "\n")
+                    k += 1
+                    timeouts += 1
+                break
+            wait = next_wait
+            if kk < 0:
+                continue            # warm-up finished
+            out.write(json.dumps(case, separators=(",", ":")) + "\n")
+            k = kk + 1
+        else:
+            proc.join()
     out.flush()
 
 
